@@ -222,7 +222,7 @@ def cases(rng, tier):
         for t in jt:
             yield {"k": "urljoin", "base": b, "url": t}
     # seeded random compositions
-    n = 5000 if tier == "quick" else 250000
+    n = 30000 if tier == "quick" else 250000
     alphabet = "au=&?/%:.#2Fq@x[ é"
     for _ in range(n):
         r = rng.random()
